@@ -107,6 +107,11 @@ func (req *Request) parse(con *Connection) {
 	p := buf
 	key, value,tmp := "", "",""
 	for p != "" {
+		// an empty line ends the header block; what follows it is the body
+		if strings.HasPrefix(p, "\r\n") {
+			p = p[2:]
+			break
+		}
 		if key, tmp = match_until(p, ": ");key != "" {
 			p = tmp
 		}
